@@ -555,8 +555,13 @@ func parseGen(tier string, r *rng, emit func(string)) {
 			}
 			src(strings.Join(cp, " "))
 		}
-		if thorough || len(holes) <= 2 {
+		if len(holes) <= 2 {
 			seqsOver(tokAlphabet, len(holes), fill)
+		} else if thorough {
+			seqsOver(tokAlphabetSmall, len(holes), fill)
+			for i := 0; i < 20000; i++ {
+				fill(randTokens(r, tokAlphabet, len(holes)))
+			}
 		} else {
 			seqsOver(tokAlphabetSmall, len(holes), func(v []string) {
 				if r.intn(8) == 0 {
